@@ -320,13 +320,21 @@ func WindowFrameSet(partition Partition, expr parser.AnalyticClause) []WindowFra
 }
 
 func windowValues(ctx context.Context, scope *ReferenceScope, frame WindowFrame, partition Partition, expr parser.AnalyticFunction, valueCache map[int]value.Primary) ([]value.Primary, error) {
-	values := make([]value.Primary, 0, frame.High-frame.Low+1)
+	low, high := frame.Low, frame.High
+	if low < 0 {
+		low = 0
+	}
+	if len(partition)-1 < high {
+		high = len(partition) - 1
+	}
+	capacity := 0
+	if low <= high {
+		capacity = high - low + 1
+	}
+	values := make([]value.Primary, 0, capacity)
 
 	anScope := scope.CreateScopeForAnalytics()
-	for i := frame.Low; i <= frame.High; i++ {
-		if i < 0 || len(partition) <= i {
-			continue
-		}
+	for i := low; i <= high; i++ {
 
 		recordIdx := partition[i]
 		if v, ok := valueCache[recordIdx]; ok {
